@@ -32,14 +32,14 @@ def run(c):
     c.judge(dict(fails=[tuple(x) for x in res["fails"]]), logf)
     st = res["stats"]
     if not c.violations:   # a violation on real-code states stands on its own; vacuity only matters for a clean result
-        mx.need(st, ["ownForeign", "ownSignerKeyed", "ownOwnerOk", "privGuarded", "privAccepted", "privElsewhere", "killRejected", "killAccepted",
+        mx.need(st, ["ownForeign", "ownSignerKeyed", "ownOwnerOk", "privGuarded", "privAccepted", "privElsewhere", "killForeign", "killAccepted",
                      "ownForeignWhole", "ownForeignOver", "ownOtherScope", "ownScopeWitness",
-                     "privPayloadNamesDesignated", "killRotatedAccepted", "killEmptyRejected", "openOk", "openAfterHole", "holeyStates"])
+                     "privPayloadNamesDesignated", "killRotatedAccepted", "killEmptyList", "openOk", "openAfterHole", "holeyStates"])
         mx.need_eq(st, [("ownRowsWitnessed", "ownRows"), ("variantsWitnessed", "variants"), ("openMsgsWitnessed", "openMsgs")])
     c.samples = mx.samples(logf, ("Own", "Open", "Priv", "Kill"))
     return c.finish("model_checking", dict(
         states=res["mc"]["distinct"], transitions=res["mc"]["generated"], traces_validated_against_impl=st["nodes"],
-        cells_executed=st["own"] + st["privGuarded"] + st["privElsewhere"] + st["killRejected"] + st["killAccepted"],
+        cells_executed=st["own"] + st["privGuarded"] + st["privElsewhere"] + st["killForeign"] + st["killAccepted"],
         prepared_states=st["states"], antecedents=st, exhaustive=True, log_cached=cached,
         rule="every cell of the owner matrix (position message x signer) and of the privileged matrix (variant x chain id x sender; kill switch x sender) "
              "is one execution on the real code per prepared state (fresh fixture + seeded random prefixes); a cell counts as non-vacuous when the same "
